@@ -305,6 +305,14 @@ func (g *didGen) buildDoc(id string, k int, shape int) (string, *didtypes.DIDDoc
 	case 10: // duplicate ids: a dedicated authentication method and a plain verification method share one id, different keys
 		vm(vmid, didtypes.ES256K_2019, g.keys[(k+1)%len(g.keys)].b58)
 		relDed("auth", vmid, didtypes.ES256K_2019, key.b58)
+	case 12: // other keys under the other relationships only (an "admin" key under capabilityInvocation, one under
+		// capabilityDelegation, one under keyAgreement): listed, of the right type, but without control
+		vm(vmid, didtypes.ES256K_2019, key.b58)
+		relRef("auth", vmid)
+		relDed("capinv", id+"#admin", didtypes.ES256K_2019, g.keys[(k+1)%len(g.keys)].b58)
+		relDed("capdel", id+"#deleg", didtypes.ES256K_2019, g.keys[(k+2)%len(g.keys)].b58)
+		vm(id+"#ka", didtypes.ES256K_2019, g.keys[(k+3)%len(g.keys)].b58)
+		relRef("keyagree", id+"#ka")
 	case 11: // duplicate ids among verification methods: the first one wins
 		vm(vmid, didtypes.ES256K_2019, key.b58)
 		vm(vmid, didtypes.ES256K_2019, g.keys[(k+1)%len(g.keys)].b58)
@@ -350,9 +358,9 @@ func (g *didGen) sign(k int, data *didtypes.DIDDocument, seq uint64, tamper int)
 
 func (g *didGen) shape() int {
 	if g.r.Chance(70) {
-		return pick(g.r, []int{0, 0, 1, 2, 3, 5, 10, 11})
+		return pick(g.r, []int{0, 0, 1, 2, 3, 5, 10, 11, 12, 12})
 	}
-	return g.r.Intn(12)
+	return g.r.Intn(13)
 }
 
 func (g *didGen) from() string { return g.accts[g.r.Intn(len(g.accts))].Addr.String() }
@@ -450,7 +458,38 @@ func (g *didGen) msg() (string, string) {
 			}
 		}
 		directed := false
-		if cd := g.curDoc[did]; cd != nil && g.r.Chance(30) {
+		ownID := ""
+		if cd := g.curDoc[did]; cd != nil && g.r.Chance(25) {
+			// a key the stored document lists under another relationship only (or as a plain method) signs under ITS OWN
+			// method id: listed, of the right type — and without control
+			type cand struct {
+				k  int
+				id string
+			}
+			var cs []cand
+			consider := func(vmm *didtypes.VerificationMethod) {
+				for k := range g.keys {
+					if vmm.PublicKeyBase58 == g.keys[k].b58 && !g.authorised(cd, vmm.Id, k) {
+						cs = append(cs, cand{k, vmm.Id})
+					}
+				}
+			}
+			for _, v := range cd.VerificationMethods {
+				consider(v)
+			}
+			for _, rels := range [][]didtypes.VerificationRelationship{cd.AssertionMethods, cd.KeyAgreements, cd.CapabilityInvocations, cd.CapabilityDelegations} {
+				for _, r := range rels {
+					if v := r.GetVerificationMethod(); v != nil {
+						consider(v)
+					}
+				}
+			}
+			if len(cs) > 0 {
+				c := cs[g.r.Intn(len(cs))]
+				signer, ownID, directed = c.k, c.id, true
+			}
+		}
+		if cd := g.curDoc[did]; cd != nil && !directed && g.r.Chance(30) {
 			// a key that the stored document lists without giving it control (a plain or assertion-only method, the
 			// plain namesake of a dedicated one) signs, naming the method that does control the document
 			for k := range g.keys {
@@ -492,6 +531,9 @@ func (g *didGen) msg() (string, string) {
 		vmid := g.curVM[did]
 		if vmid == "" {
 			vmid = did + "#key1"
+		}
+		if ownID != "" {
+			vmid = ownID
 		}
 		if ids := methodIDs(g.curDoc[did]); len(ids) > 0 && !directed && g.r.Chance(25) {
 			vmid = pick(g.r, ids) // another method of the stored document is named: only its own key, if listed under authentication, may sign
